@@ -52,6 +52,20 @@ func (l *ledger) rel(o interface{}, kind string) {
 	delete(l.held, o)
 }
 
+// tripwire is what a released compressor is pointed at: nobody may write through an object that
+// went back to its provider (the next user resets it to its own connection first).
+type tripwire struct {
+	l    *ledger
+	kind string
+}
+
+func (t *tripwire) Write(p []byte) (int, error) {
+	t.l.mu.Lock()
+	t.l.issues = append(t.l.issues, fmt.Sprintf("a released %s was used again (%d bytes written through it after its release)", t.kind, len(p)))
+	t.l.mu.Unlock()
+	return len(p), nil
+}
+
 func (l *ledger) AcquireGzipWriter() *gzip.Writer {
 	w := l.inner.AcquireGzipWriter()
 	l.acq(w, "gzip.Writer")
@@ -61,10 +75,11 @@ func (l *ledger) AcquireGzipWriter() *gzip.Writer {
 // A released object is detached before it goes back to the real provider (a custom provider may
 // do anything with an object it owns again): whatever the framework still writes or reads through
 // it after the release is lost, so use-after-release shows up in the decoded body even without a
-// second request. The framework resets every object it acquires, so correct code is unaffected.
+// second request - and is recorded by the tripwire the object points at from then on. The framework
+// resets every object it acquires, so correct code is unaffected.
 func (l *ledger) ReleaseGzipWriter(w *gzip.Writer) {
 	l.rel(w, "gzip.Writer")
-	w.Reset(io.Discard)
+	w.Reset(&tripwire{l, "gzip.Writer"})
 	l.inner.ReleaseGzipWriter(w)
 }
 func (l *ledger) AcquireGzipReader() *gzip.Reader {
@@ -84,7 +99,7 @@ func (l *ledger) AcquireZlibWriter() *zlib.Writer {
 }
 func (l *ledger) ReleaseZlibWriter(w *zlib.Writer) {
 	l.rel(w, "zlib.Writer")
-	w.Reset(io.Discard)
+	w.Reset(&tripwire{l, "zlib.Writer"})
 	l.inner.ReleaseZlibWriter(w)
 }
 
